@@ -686,8 +686,15 @@ func Quiet(dir string) {
 
 // NewContext returns a fresh Caddy context for provisioning modules directly.
 func NewContext() (caddy.Context, context.CancelFunc) {
+	if UseActiveContext {
+		return caddy.NewContext(caddy.ActiveContext())
+	}
 	return caddy.NewContext(caddy.Context{Context: context.Background()})
 }
+
+// UseActiveContext makes NewContext derive from the running Caddy configuration (needed when modules such as the tls
+// handler have to find the apps of that configuration, e.g. a tls app with the harness certificate).
+var UseActiveContext bool
 
 // LoadApp provisions a layer4 App from its JSON through the module loader.
 func LoadApp(ctx caddy.Context, cfg string) (*layer4.App, error) {
